@@ -357,6 +357,7 @@ Section Obj.
     destruct (push_to_block2 E p o c) as [[o1|o1] c1]; cbn [fst snd res_obj] in *.
     - destruct (a_close_obj p); [|apply ExtR_ok; exact K].
       destruct (r_state o1) eqn:Es; try (apply ExtR_ok; exact K).
+      destruct (r_writer o1) as [wr1|] eqn:Ewr1; [|apply ExtR_ok; exact K].
       assert (L1 : Live o1). { apply Quiet_recv; [|exact Es]. exact (proj1 (e_pre _ _ _ _ K)). }
       pose proof (Ext_error o1 true c1 (e_pre _ _ _ _ K) L1) as K2.
       destruct (error o1 true c1) as [o2 c2]. cbn [fst snd] in K2.
